@@ -257,6 +257,7 @@ func runC06(c *Ctx) {
 
 	// ---- R1
 	checkAggregateCommitVerifier(c, "C06.R1", vac)
+	checkChangeDetectionComplete(c, "C06.G change-detection-complete", []string{"pkg/consensus/liskbft.(*API).SetBFTParameters", "pkg/consensus/liskbft.(*API).SetGeneratorKeys"})
 	ff := factsOf(vac)
 	_, _, _, _ = ff, commitH, heights, nextH
 
